@@ -382,13 +382,20 @@ def stripZeros (l : Bytes) : Bytes := (l.reverse.dropWhile (· == 48)).reverse
 
 def padLeft (w : Nat) (l : Bytes) : Bytes := List.replicate (w - l.length) 48 ++ l
 
-/-- `%g` (precision 6) of a positive rational -/
-def fmtGPos (n d : Nat) : Bytes :=
-  -- upper bound for the decimal exponent from the bit lengths
-  let hi : Int := ((bitLen n : Int) - (bitLen d : Int) + 1) * 30103 / 100000 + 1
-  let x0 := findExp10 800 n d hi
-  let dg0 := roundDiv10 n d (x0 - 5)
-  let (dg, x) := if dg0 ≥ 1000000 then (dg0 / 10, x0 + 1) else (dg0, x0)
+/-- decimal exponent `X` of `n/d > 0`: `10^X ≤ n/d < 10^(X+1)`, searched downward from the bit
+    length of `n` (`n/d ≤ n < 2^bitLen n ≤ 10^bitLen n`; and `n/d ≥ 1/d > 10^-(bitLen d)`, so the
+    fuel suffices) -/
+def exp10 (n d : Nat) : Int := findExp10 (bitLen n + bitLen d + 2) n d (bitLen n : Int)
+
+/-- the six significant digits (a number in `[10^5, 10^6)`) and the decimal exponent of `n/d`,
+    rounded half-even as `%g`/`%e` do (a carry to `10^6` moves the exponent up) -/
+def sixDigits (n d : Nat) : Nat × Int :=
+  if roundDiv10 n d (exp10 n d - 5) ≥ 1000000 then
+    (roundDiv10 n d (exp10 n d - 5) / 10, exp10 n d + 1)
+  else (roundDiv10 n d (exp10 n d - 5), exp10 n d)
+
+/-- `%g` layout (precision 6, trailing zeros removed) of the digits `dg` with decimal exponent `x` -/
+def layoutG (dg : Nat) (x : Int) : Bytes :=
   let ds := padLeft 6 (renderNat dg)          -- exactly 6 digits
   if x < -4 || x ≥ 6 then
     let frac := stripZeros (ds.drop 1)
@@ -401,6 +408,9 @@ def fmtGPos (n d : Nat) : Bytes :=
   else
     let frac := stripZeros (List.replicate ((-x).toNat - 1) (48 : UInt8) ++ ds)
     ([48, 46] : Bytes) ++ frac
+
+/-- `%g` (precision 6) of a positive rational -/
+def fmtGPos (n d : Nat) : Bytes := layoutG (sixDigits n d).1 (sixDigits n d).2
 
 def signBytes (n : Bool) : Bytes := if n then [45] else []
 
